@@ -492,7 +492,8 @@ export class TypeGen {
     const branches = vals.map((v, i) => {
       const ps = this.props(depth, r.below(3)).filter((p) => p.name !== key && p.name !== second);
       const dv = i === 0 && r.chance(0.2) ? A.union([A.lit(v), A.lit(v + "2")]) : A.lit(v);
-      const all = [A.prop(key, dv), ...ps];
+      // (now and then the tag is optional in ONE member: such a key cannot be dispatched on)
+      const all = [A.prop(key, dv, i === 1 && r.chance(0.12)), ...ps];
       // sometimes a second property that would qualify as discriminator as well
       if (second) all.push(A.prop(second, A.lit(`${v}_${i}`)));
       // sometimes a tagged member also carries an index signature (written inline or as an
